@@ -342,7 +342,7 @@ def mon_C05(ops, results):
                         out.append(viol("C05.purge-removes-exactly-tombstones", i, "%s/%s had no body but survives the purge" % key))
                 elif row_of(before) != row_of(after):
                     out.append(viol("C05.purge-removes-exactly-tombstones", i, "live document %s/%s changed by the purge" % key))
-        elif name == "drain" and len(pos) >= 1 and pos[0] in feeds and feeds[pos[0]]["dump"] and not feeds[pos[0]]["keysonly"]:
+        elif name == "drain" and len(pos) >= 1 and pos[0] in feeds and feeds[pos[0]]["dump"]:
             # backfilled events agree with the latest readback of their key
             coll = feeds[pos[0]]["coll"]
             for t in res.split(" "):
@@ -397,6 +397,9 @@ def mon_C02(ops, results):
         ok = succeeded(name, rf)
         if ok and exp_cas != cur:
             out.append(viol("C02.applied-only-if-cas-current", i, "%s with expected CAS %d succeeded, current CAS was %d" % (name, exp_cas, cur)))
+        if ok and exp_cas != 0 and name not in ("swm", "dwm") and after is not None and not absent(after) and int(after.get("row.cas", "0")) == exp_cas:
+            # a successful conditional write consumes the version it was conditional on: otherwise a second writer holding the same CAS succeeds too
+            out.append(viol("C02.success-consumes-the-version", i, "%s with expected CAS %d succeeded and the document still has CAS %d" % (name, exp_cas, exp_cas)))
         if not ok and exp_cas == cur and rf.get("r") == "casmismatch":
             out.append(viol("C02.current-cas-is-accepted", i, "%s reported a CAS mismatch although %d is the current CAS" % (name, cur)))
         if not ok and after is not None and row_of(before) != row_of(after):
